@@ -871,3 +871,170 @@ func expectedMeta(f *fileSpec, root string) (map[string]any, bool, error) {
 	out["deps"] = deps
 	return out, dup, nil
 }
+
+// ---------------------------------------------------------------------------
+// data files: the harness's own JSON recogniser (RFC 8259; nothing from gojq)
+
+func isJSONSpace(b byte) bool { return b == ' ' || b == '\t' || b == '\n' || b == '\r' }
+
+// jsonValueEnd returns the offset just past the complete JSON value starting
+// at s[i], or -1 when no complete value starts there.
+func jsonValueEnd(s string, i, depth int) int {
+	if i >= len(s) || depth > 200 {
+		return -1
+	}
+	skip := func(j int) int {
+		for j < len(s) && isJSONSpace(s[j]) {
+			j++
+		}
+		return j
+	}
+	switch c := s[i]; {
+	case c == '{':
+		j := skip(i + 1)
+		if j < len(s) && s[j] == '}' {
+			return j + 1
+		}
+		for {
+			if j >= len(s) || s[j] != '"' {
+				return -1
+			}
+			if j = jsonValueEnd(s, j, depth+1); j < 0 {
+				return -1
+			}
+			if j = skip(j); j >= len(s) || s[j] != ':' {
+				return -1
+			}
+			if j = jsonValueEnd(s, skip(j+1), depth+1); j < 0 {
+				return -1
+			}
+			if j = skip(j); j >= len(s) {
+				return -1
+			}
+			if s[j] == '}' {
+				return j + 1
+			}
+			if s[j] != ',' {
+				return -1
+			}
+			j = skip(j + 1)
+		}
+	case c == '[':
+		j := skip(i + 1)
+		if j < len(s) && s[j] == ']' {
+			return j + 1
+		}
+		for {
+			if j = jsonValueEnd(s, j, depth+1); j < 0 {
+				return -1
+			}
+			if j = skip(j); j >= len(s) {
+				return -1
+			}
+			if s[j] == ']' {
+				return j + 1
+			}
+			if s[j] != ',' {
+				return -1
+			}
+			j = skip(j + 1)
+		}
+	case c == '"':
+		for j := i + 1; j < len(s); j++ {
+			switch b := s[j]; {
+			case b == '"':
+				return j + 1
+			case b < 0x20:
+				return -1
+			case b == '\\':
+				j++
+				if j >= len(s) {
+					return -1
+				}
+				switch s[j] {
+				case '"', '\\', '/', 'b', 'f', 'n', 'r', 't':
+				case 'u':
+					if j+4 >= len(s) {
+						return -1
+					}
+					for k := 1; k <= 4; k++ {
+						h := s[j+k]
+						if !('0' <= h && h <= '9' || 'a' <= h && h <= 'f' || 'A' <= h && h <= 'F') {
+							return -1
+						}
+					}
+					j += 4
+				default:
+					return -1
+				}
+			}
+		}
+		return -1
+	case c == 't' || c == 'f' || c == 'n':
+		for _, lit := range []string{"true", "false", "null"} {
+			if strings.HasPrefix(s[i:], lit) {
+				return i + len(lit)
+			}
+		}
+		return -1
+	case c == '-' || '0' <= c && c <= '9':
+		j := i
+		if s[j] == '-' {
+			j++
+		}
+		digits := func() bool {
+			k := j
+			for j < len(s) && '0' <= s[j] && s[j] <= '9' {
+				j++
+			}
+			return j > k
+		}
+		if j < len(s) && s[j] == '0' {
+			j++
+		} else if !digits() {
+			return -1
+		}
+		if j < len(s) && s[j] == '.' {
+			j++
+			if !digits() {
+				return -1
+			}
+		}
+		if j < len(s) && (s[j] == 'e' || s[j] == 'E') {
+			j++
+			if j < len(s) && (s[j] == '+' || s[j] == '-') {
+				j++
+			}
+			if !digits() {
+				return -1
+			}
+		}
+		return j
+	}
+	return -1
+}
+
+// scanDataFile decides whether text is a white-space separated sequence of
+// complete JSON values and returns the texts of the values.  adjacent reports
+// two complete values with nothing between them (not judged).
+func scanDataFile(text string) (vals []string, ok, adjacent bool) {
+	i := 0
+	for {
+		start := i
+		for i < len(text) && isJSONSpace(text[i]) {
+			i++
+		}
+		if i == len(text) {
+			return vals, true, adjacent
+		}
+		if len(vals) > 0 && i == start {
+			adjacent = true
+		}
+		j := jsonValueEnd(text, i, 0)
+		if j < 0 {
+			return nil, false, false
+		}
+		vals = append(vals, text[i:j])
+		i = j
+	}
+}
